@@ -54,7 +54,8 @@ def run(ctx):
     P = ctx.P
     # shared clause: a truncated upstream reply is never relayed as the result (it would reach TCP clients with TC set)
     if not getattr(ctx, "_included_c03", False) and ctx.prop == "C04":
-        ctx.include("C03", rules=("R9",))
+        ctx.include("C03", rules=("R9", "R1"))
+    ctx.include("C14", rules=("R3", "R4"))      # a pointer that cannot be expressed in 14 bits, or points forward, is not well-formed
     cg = callgraph(P)
     cands = [f for f in fn_with_sig(P, *SWS_SIG) if f in P.bodies and "serialise" in f]
     ctx.floor("anchor", "size-limited serialiser", len(cands), 1)
